@@ -228,6 +228,9 @@ def strat_split(tier):
         'form': _forms,
         'sep': st.sampled_from(['none', 'none', 'scalar', 'scalar', 'set', 'list', 'callable']),
         'maxsplit': st.one_of(st.none(), st.none(), st.integers(0, 5)),
+        # for a scalar separator: which values stand for it in the stream.  'bytes': sep b'SEP', stream holds b'SEP' and the equal
+        # but unhashable bytearray(b'SEP'); 'num': sep 1, stream holds 1, 1.0 and True; ordinary items then include unhashable lists
+        'sepkind': st.sampled_from(['str', 'str', 'bytes', 'num']),
     })
 
 
@@ -257,6 +260,12 @@ def run_split(case):
     is_sep = [c in seps for c in raw]
     sep_arg = {'none': None, 'scalar': 'SEP', 'set': {'SEP', 'SEP2'}, 'list': ['SEP', 'SEP2'],
                'callable': (lambda x: x in ('SEP', 'SEP2'))}[mode]
+    sepkind = case.get('sepkind', 'str') if mode == 'scalar' else 'str'
+    if sepkind != 'str':
+        forms = [b'SEP', bytearray(b'SEP')] if sepkind == 'bytes' else [1, 1.0, True]
+        sep_arg = forms[0]
+        items = [forms[i % len(forms)] if sp else (['i%d' % c] if c % 2 else 'i%d' % c) for i, (c, sp) in enumerate(zip(raw, is_sep))]
+        out.label('separator_equal_not_identical:' + sepkind)
     maxsplit = case['maxsplit']
     enc = ''.join((' ' if none_mode else ',') if s else chr(0x100 + i) for i, s in enumerate(is_sep))
     parts = enc.split(None if none_mode else ',', -1 if maxsplit is None else maxsplit)
@@ -282,7 +291,7 @@ def run_split(case):
     if any(a and b for a, b in zip(is_sep, is_sep[1:])):
         out.label('consecutive_separators')
     # strip family on the same items (strip value = the first separator)
-    sv = None if none_mode else 'SEP'
+    sv = None if none_mode else (sep_arg if mode == 'scalar' else 'SEP')
     enc2 = ''.join('x' if it == sv else chr(0x100 + i) for i, it in enumerate(items))
     for name, f, fi, sf in (('lstrip', iterutils.lstrip, iterutils.lstrip_iter, str.lstrip),
                             ('rstrip', iterutils.rstrip, iterutils.rstrip_iter, str.rstrip),
@@ -439,6 +448,12 @@ def check_ranges(input_size, chunk_size, offset, overlap, align):
             return bad('range %d begins at %d, previous end %d minus overlap is %d' % (i, b, rs[i - 1][1], rs[i - 1][1] - overlap))
         if align and i and b % step:
             return bad('range %d begins at %d, not on a multiple of chunk_size-overlap_size=%d' % (i, b, step))
+    if input_size > 200000:
+        # huge inputs: coverage follows arithmetically from the clauses above (first begins at the offset, each range begins
+        # inside or at the end of its predecessor, last ends at the stop); additionally the number of ranges is the minimum
+        if overlap == 0 and not align and len(rs) != -(-input_size // chunk_size):
+            return bad('%d ranges, expected ceil(input_size / chunk_size) = %d' % (len(rs), -(-input_size // chunk_size)))
+        return None
     covered = set()
     for b, e in rs:
         covered.update(range(b, e))
@@ -447,9 +462,26 @@ def check_ranges(input_size, chunk_size, offset, overlap, align):
     return None
 
 
+_SCALES = [2 ** 31, 2 ** 32, 2 ** 53, 2 ** 53 + 1, 10 ** 16, 2 ** 60, 2 ** 63, 2 ** 64, 10 ** 30]
+
+
 def strat_ranges(tier):
     @st.composite
     def case(draw):
+        if draw(st.integers(0, 5)) == 0:
+            # scale class: sizes/offsets beyond 2**31, 2**53 (exact float range), 2**63/2**64; few (<= 40) chunks
+            big = draw(st.sampled_from(_SCALES))
+            k = draw(st.integers(1, 40))
+            if draw(st.booleans()):
+                cs = big + draw(st.integers(-3, 3))
+                input_size = cs * k + draw(st.integers(-2, 2))
+            else:
+                cs = draw(st.integers(1, 12))
+                input_size = draw(st.integers(0, 60))
+            ov = draw(st.sampled_from([0, 0, 1, 7, cs // 2] + ([cs - 1] if cs < 100 else [])))
+            return {'sub': 'ranges', 'input_size': max(0, input_size), 'chunk_size': cs,
+                    'offset': draw(st.sampled_from([0, 3, big, big + 1, big - 1])),
+                    'overlap': min(max(0, ov), cs - 1), 'align': draw(st.booleans())}
         cs = draw(st.integers(1, 12))
         return {'sub': 'ranges', 'input_size': draw(st.one_of(st.integers(0, 60), st.integers(0, 2000))),
                 'chunk_size': cs, 'offset': draw(st.one_of(st.integers(0, 30), st.integers(0, 1000))),
@@ -468,6 +500,10 @@ def run_ranges(case):
     out.nontrivial = ov == cs - 1 or (case['align'] and case['offset'] % step != 0) or case['input_size'] % cs == 0
     if ov == cs - 1 and cs > 1:
         out.label('overlap_eq_chunk_minus_1')
+    if case['input_size'] >= 2 ** 31 or case['offset'] >= 2 ** 31:
+        out.label('ranges_beyond_2**31')
+    if case['input_size'] >= 2 ** 53 or case['offset'] >= 2 ** 53:
+        out.label('ranges_beyond_2**53')
     if case['align'] and case['offset'] % step:
         out.label('align_unaligned_offset')
     return out
